@@ -135,7 +135,7 @@ def query_params(e):
 
 def call_kwargs(c, return_utilities=True, variant=0):
     """variant 0: default call; 1: model passed pre-fitted with fit_*=False; 2: sample_weight given;
-    3: pre-fitted + utility_weight (where the strategy has these parameters); 4: X, y, candidates as nested lists; 5: Fortran order / int32 indices; 6: float32 features."""
+    3: pre-fitted + utility_weight (where the strategy has these parameters); 4: X, y, candidates as nested lists; 5: Fortran order / int32 indices; 6: float32 features; 7: heavy sample weights."""
     e = c.entry
     kw = dict(e.kwargs(c.ctx))
     qp = query_params(e)
@@ -156,6 +156,11 @@ def call_kwargs(c, return_utilities=True, variant=0):
     # for feature-row candidates, which have no weight
     if variant == 2 and "sample_weight" in qp and c.cmode != "feat":
         kw["sample_weight"] = np.round(rng.rand(c.n) + 0.2, 2)
+    # (not for precompute=True of EpistemicUncertaintySampling: its interpolation grid has max(frequency)^2 cells, each
+    # filled by two numerical optimisations - minutes of run time by design, nothing to decide)
+    if variant == 7 and "sample_weight" in qp and c.cmode != "feat" and e.name != "EpistemicUS_pre":
+        # heavy weights (as many identical observations): kernel frequency estimates in the hundreds and thousands
+        kw["sample_weight"] = np.round(rng.rand(c.n) * 400 + 100)
     if variant == 3 and "utility_weight" in qp and c.cmode != "feat":
         kw["utility_weight"] = np.round(rng.rand(c.n) + 0.5, 2)
     kw.update(X=c.X.copy(), y=c.y.copy(),
